@@ -176,3 +176,217 @@ pub fn gen_longcs(prop: &str, seed: u64) -> RunDesc {
     }
     RunDesc { prop: prop.to_string(), family: "ebr-longcs".into(), seed, cfg, threads, params: J::Null, schedule: None, buggify_script: None }
 }
+
+// ---------------------------------------------------------------------------------------------
+// EBR-PRIVATE: a private collector (through the shim) used by several threads, each with its own
+// handle; closures of all shapes are deferred, some bags are flushed, some stay local, handles
+// and guards are dropped in any order, and finally the last reference to the collector goes
+// away with garbage still queued — everything must then run from the collector's own drop
+// (C15), and never inside a critical section of *that* collector that is older than the
+// deferral (C13). The default collector's clock is not involved.
+
+use std::sync::Arc;
+
+use circ::verif::{Collector, LocalHandle};
+
+use crate::sched::{self, sim, user_yield, ThreadSpec};
+use crate::shadow::{self, shadow, Shadow};
+
+pub fn gen_private(prop: &str, seed: u64) -> RunDesc {
+    let mut rng = Rng::new(seed);
+    let mut cfg = RunCfg::default();
+    let nt = 1 + rng.below(4) as usize;
+    swarm_cfg(&mut rng, &mut cfg, nt, true);
+    cfg.max_objects = *rng.pick(&[2u32, 3, 4, 8, 64]);
+    cfg.manual_interval = 64;
+    let shape = |rng: &mut Rng| rng.below(crate::closures::NSHAPES as u64) as u32;
+    let mut threads = Vec::new();
+    for _ in 0..nt {
+        let mut ops = Vec::new();
+        let n = 2 + rng.below(14);
+        let mut pinned = [false; 2];
+        for _ in 0..n {
+            match rng.below(10) {
+                0 | 1 => {
+                    let g = rng.below(2) as usize;
+                    if !pinned[g] {
+                        pinned[g] = true;
+                        ops.push(op(K::Pin, g as u32, 0, 0, 0));
+                    }
+                }
+                2 => {
+                    let g = rng.below(2) as usize;
+                    if pinned[g] {
+                        pinned[g] = false;
+                        ops.push(op(K::Unpin, g as u32, 0, 0, 0));
+                    }
+                }
+                3..=6 => {
+                    if let Some(g) = (0..2).find(|&g| pinned[g]) {
+                        ops.push(op(K::Defer, g as u32, shape(&mut rng), 0, 0));
+                    } else {
+                        pinned[0] = true;
+                        ops.push(op(K::Pin, 0, 0, 0, 0));
+                    }
+                }
+                7 => {
+                    if let Some(g) = (0..2).find(|&g| pinned[g]) {
+                        ops.push(op(K::Flush, g as u32, 0, 0, 0));
+                    }
+                }
+                8 => {
+                    if let Some(g) = (0..2).find(|&g| pinned[g]) {
+                        ops.push(op(if rng.chance(0.5) { K::TryAdvance } else { K::Collect }, g as u32, 0, 0, 0));
+                    }
+                }
+                _ => {
+                    if let Some(g) = (0..2).find(|&g| pinned[g]) {
+                        ops.push(op(K::Reactivate, g as u32, 0, 0, 0));
+                    }
+                }
+            }
+        }
+        // how the thread leaves: 0 = drop guards then handle, 1 = handle first (guards keep the
+        // participant alive), 2 = leave a guard pinned until the very end of the thread
+        let mut t = ThreadProg::new(0, ops);
+        t.exit_mode = rng.below(3) as u32;
+        t.name = "private".into();
+        threads.push(t);
+    }
+    if let Some(s) = cfg.stall.as_mut() {
+        s.victim = rng.below(nt as u64) as u32;
+    }
+    RunDesc { prop: prop.to_string(), family: "ebr-private".into(), seed, cfg, threads, params: J::Null, schedule: None, buggify_script: None }
+}
+
+struct Holder(Option<Collector>);
+static mut HOLDER: Holder = Holder(None);
+
+#[allow(static_mut_refs)]
+fn body(tid: usize, prog: &ThreadProg) {
+    // each thread registers its own handle from a clone of the collector
+    let handle: LocalHandle = unsafe { HOLDER.0.as_ref().unwrap().clone().register() };
+    let mut handle = Some(handle);
+    let mut guards: [Option<(circ::Guard, u64)>; 2] = [None, None];
+    for (i, o) in prog.ops.iter().enumerate() {
+        sched::set_op(i as u32);
+        user_yield();
+        let g = o.a as usize % 2;
+        match o.k {
+            K::Pin => {
+                if guards[g].is_none() {
+                    let gd = handle.as_ref().unwrap().pin();
+                    let uid = shadow().guard_created(tid);
+                    guards[g] = Some((gd, uid));
+                }
+            }
+            K::Unpin => {
+                if let Some((gd, uid)) = guards[g].take() {
+                    shadow().guard_released(tid, uid, true);
+                    drop(gd);
+                }
+            }
+            K::Defer => {
+                if let Some((gd, _)) = guards[g].as_ref() {
+                    crate::closures::defer_shape(tid, gd, o.b as usize);
+                }
+            }
+            K::Flush => {
+                if let Some((gd, _)) = guards[g].as_ref() {
+                    gd.flush();
+                }
+            }
+            K::TryAdvance => {
+                if let Some((gd, _)) = guards[g].as_ref() {
+                    circ::verif::try_advance(gd);
+                }
+            }
+            K::Collect => {
+                if let Some((gd, _)) = guards[g].as_ref() {
+                    circ::verif::collect(gd);
+                }
+            }
+            K::Reactivate => {
+                if let Some((gd, uid)) = guards[g].as_mut() {
+                    let sh = shadow();
+                    sh.guard_released(tid, *uid, false);
+                    let sole = sh.ucs[tid].guards.len() == 1;
+                    sh.ucs[tid].suspended = true;
+                    gd.reactivate();
+                    let sh = shadow();
+                    sh.ucs[tid].suspended = false;
+                    if sole {
+                        sh.cs_restarted(tid);
+                    }
+                }
+            }
+            _ => {}
+        }
+    }
+    sched::set_op(prog.ops.len() as u32);
+    user_yield();
+    if prog.exit_mode == 1 {
+        drop(handle.take());
+        user_yield();
+    }
+    for g in 0..2 {
+        if let Some((gd, uid)) = guards[g].take() {
+            user_yield();
+            shadow().guard_released(tid, uid, true);
+            drop(gd);
+        }
+    }
+    drop(handle.take());
+}
+
+#[allow(static_mut_refs)]
+pub fn run_private(desc: &RunDesc) -> ! {
+    crate::runner::init_library(&desc.cfg);
+    let n = desc.threads.len();
+    let c = Collector::new();
+    circ::verif::set_global_epoch(&c, desc.cfg.start_epoch as usize);
+    unsafe { HOLDER.0 = Some(c) };
+    let mut sh = Shadow::new(n + 1, !0, 0);
+    sh.ebr.enable(circ::verif::global_epoch_addr(unsafe { HOLDER.0.as_ref().unwrap() }));
+    shadow::install(sh);
+    let progs: Arc<Vec<ThreadProg>> = Arc::new(desc.threads.clone());
+    let mut specs = Vec::new();
+    for (i, t) in desc.threads.iter().enumerate() {
+        let progs = progs.clone();
+        specs.push(ThreadSpec { phase: t.phase, stack: 1 << 20, name: "private", body: Arc::new(move |tid| body(tid, &progs[i])) });
+    }
+    // last: the final reference to the collector goes away, with whatever is still queued
+    specs.push(ThreadSpec {
+        phase: 9,
+        stack: 1 << 20,
+        name: "drop-collector",
+        body: Arc::new(move |_tid| {
+            let pending = shadow().closures.iter().filter(|c| c.executed == 0).count();
+            crate::runner::set_extra("fam", J::obj().set("closures_pending_at_collector_drop", pending).set("closures", shadow().closures.len()));
+            if pending > 0 {
+                sim().probe("collector_dropped_with_garbage_queued");
+            }
+            // the clock word dies with the collector
+            shadow().ebr.enabled = false;
+            unsafe { HOLDER.0 = None };
+        }),
+    });
+    let sc = crate::runner::sim_config(desc, n + 1);
+    sched::run(sc, Box::new(shadow::RcMonitor), specs, None);
+    let sh = shadow();
+    sh.check_quiescence(0);
+    if desc.cfg.quarantine {
+        if let Some(a) = crate::alloc::verify_poison() {
+            sh.soft(&desc.prop, "write-after-free", format!("freed memory at {:#x} was written after it was freed", a));
+        }
+        let df = crate::alloc::DOUBLE_FREE.load(std::sync::atomic::Ordering::SeqCst);
+        if df != 0 {
+            sh.soft("C15", "double-free", format!("block at {:#x} was freed twice", df));
+        }
+    }
+    let outcome = match sh.soft.first() {
+        Some(f) => sched::Outcome::Violation(sched::Violation { prop: f.prop.clone(), kind: "soft".into(), signature: f.signature.clone(), detail: f.detail.clone(), seq: f.seq }),
+        None => sched::Outcome::Ok,
+    };
+    sim().finish(outcome)
+}
